@@ -304,7 +304,7 @@ func (r *rtRun) reader() {
 		}
 		d := Delivery{ID: msgID(m), At: e.Stamp()}
 		if d.ID < 0 {
-			d.Msg = fmt.Sprintf("%T%+v", m, m)
+			d.Msg = dump(m)
 		}
 		r.deliv = append(r.deliv, d)
 		e.S.Logf("rdeliver id=%d", d.ID)
